@@ -28,6 +28,8 @@ mod worker;
 mod worker_goals;
 mod worker_monitor;
 pub(crate) use worker::current_worker_ordinal;
+#[cfg(mmtk_verif)]
+pub(crate) use worker::verif_set_current_worker_ordinal;
 pub use worker::GCWorker;
 pub(crate) use worker::GCWorkerShared;
 
